@@ -175,10 +175,11 @@ def gen_tree(rnd):
             files[tgt] = text
             links['src/' + name] = '../' + tgt
         else:
-            files['src/' + name] = text
+            # the place of a file (a sub-directory, a second search directory) decides nothing but the order of discovery
+            files[rnd.choice(['src/', 'src/', 'src/a/', 'src/z/', 'src/m/n/', 'alt/']) + name] = text
         for conf in rnd.sample(['10-a.conf', '20-b.conf'], rnd.randint(0, 2)):
             if rnd.random() < 0.6 and ty in DROPIN_LINES:
-                files[f'src/{name}.d/{conf}'] = '[' + G.SEC[ty] + ']\n' + rnd.choice(DROPIN_LINES[ty]) + '\n'
+                files[rnd.choice(['src', 'alt']) + f'/{name}.d/{conf}'] = '[' + G.SEC[ty] + ']\n' + rnd.choice(DROPIN_LINES[ty]) + '\n'
     return fs, files, links
 
 
@@ -237,7 +238,7 @@ def oracle(ctx):
 
     def run(t):
         fs, files, links = t
-        r = e2e.run_case(files, dry_run=True, symlinks=links)
+        r = e2e.run_case(files, dirs=('src', 'alt'), dry_run=True, symlinks=links)
         return r['printed_order'], r['exit'], r['stderr']
     for (fs, files, links), (printed, rc, se) in zip(trees_, e2e.pmap(run, trees_)):
         res.oracle_evals += 1
